@@ -659,6 +659,9 @@ def _const_ok(node, depth=0):
         return _const_ok(node.left, depth + 1) and _const_ok(node.right, depth + 1)
     if isinstance(node, ast.UnaryOp):
         return _const_ok(node.operand, depth + 1)
+    if isinstance(node, ast.Call) and isinstance(node.func, ast.Name) and node.func.id in ("frozenset", "tuple", "set", "list", "dict") and \
+            not node.keywords and len(node.args) <= 1:
+        return all(_const_ok(a, depth + 1) for a in node.args)
     return False
 
 
@@ -699,7 +702,7 @@ def unknown_constants(repo, known):
         for nm, v in m.globals.items():
             if nm in kg or counts.get(nm, 0) != 1 or not _const_ok(v):
                 continue
-            if not isinstance(v, ast.Constant) and _mutated(m.tree, nm):
+            if not isinstance(v, (ast.Constant, ast.Tuple)) and not (isinstance(v, ast.Call) and getattr(v.func, 'id', '') in ('frozenset', 'tuple')) and _mutated(m.tree, nm):
                 continue
             cands[nm] = v
         if cands:
